@@ -8,7 +8,7 @@ KeyNo(k) == IF k = K1 THEN 1 ELSE IF k = K2 THEN 2 ELSE 3
 \* one scenario per transition of the state graph; a crash step carries the contents the model's recovery finds
 Ops(h, rec) == [i \in 1..Len(h) |->
    IF h[i].op = "flush" THEN [op |-> "flush"]
-   ELSE IF h[i].op = "prigc" THEN [op |-> "prigc", lowUse |-> h[i].lowUse, deadline |-> 0]
+   ELSE IF h[i].op = "prigc" THEN [op |-> "prigc", lowUse |-> h[i].lowUse, deadline |-> h[i].deadline]
    ELSE IF h[i].op = "idxgc" THEN [op |-> "idxgc", scanFree |-> h[i].scanFree, deadline |-> 0]
    ELSE IF h[i].op = "rem" THEN [op |-> "rem", k |-> KeyNo(h[i].k)]
    ELSE IF h[i].op = "reopen" THEN [op |-> "reopen", snap |-> IF h[i].how = "snapshot" THEN "keep" ELSE "drop"]
